@@ -120,9 +120,11 @@ impl Debug for InternalDebugPrintableLine<'_, '_, '_> {
             let starting_cont = self.dpl.starting_ws.continuations;
             if self.top_level && line_index == 0 && matches!(decision.decision, Decision::Continue)
             {
-                for _ in 0..(decision.last_line_length
-                    - token.get_content().len() as u32
-                    - formatting_data.spaces_before as u32)
+                // (a multi-line first token is measured by its last line only)
+                for _ in 0..decision
+                    .last_line_length
+                    .saturating_sub(token.get_content().len() as u32)
+                    .saturating_sub(formatting_data.spaces_before as u32)
                 {
                     f.write_char('█')?;
                 }
